@@ -127,6 +127,28 @@ def check_case(ctx, case):
     Qn = gen.haar(rng)
     e = float(np.abs(np.asarray(T.rotate(g, Qn)) - np.einsum("ia,jb,kc,ld,abcd->ijkl", Qn, Qn, Qn, Qn, g, optimize=True)).max())
     ctx.check("rotate_law_general_tensor", e <= 1e-9 * (1 + np.linalg.norm(g)), case, err=e)
+    # the same numbers supplied as integers / float32 (published stiffness tables are often typed in without decimals)
+    if case["seed"] % 5 == 0:
+        Ci = np.round(C / max(sc, 1e-300) * 50).astype(np.int64)
+        Ci = (Ci + Ci.T)
+        Cf = Ci.astype(np.float64)
+        _, Rg = "haar", gen.haar(rng)
+        for lab, Cin in (("int64", Ci), ("float32", Cf.astype(np.float32))):
+            tolr = 1e-9 if lab == "int64" else 1e-5
+            nref = float(np.linalg.norm(Cf)) + 1
+            try:
+                ti = np.asarray(T.voigt_to_elastic_tensor(Cin), dtype=float)
+                tf = np.asarray(T.voigt_to_elastic_tensor(Cf), dtype=float)
+                ri = np.asarray(T.rotate(T.voigt_to_elastic_tensor(Cin), Rg), dtype=float)
+                rf = np.einsum("ia,jb,kc,ld,abcd->ijkl", Rg, Rg, Rg, Rg, tf, optimize=True)
+                vi = np.asarray(T.voigt_matrix_to_vector(Cin), dtype=float)
+                vf = np.asarray(T.voigt_matrix_to_vector(Cf), dtype=float)
+                bi = np.asarray(T.elastic_tensor_to_voigt(T.voigt_to_elastic_tensor(Cin)), dtype=float)
+                e = max(float(np.abs(ti - tf).max()), float(np.abs(ri - rf).max()), float(np.abs(vi - vf).max()), float(np.abs(bi - Cf).max()))
+                ctx.extreme(f"dtype_{lab}_err/norm", e / nref)
+                ctx.check("dtype_independent", e <= tolr * nref, case, dtype=lab, err=e)
+            except Exception as ex:
+                ctx.check("dtype_independent", False, case, key=f"dtype_raises/{lab}/{type(ex).__name__}", exc=str(ex)[:150])
     # polar decomposition + invariants on a hostile 3x3
     M = matrix3(rng, case["mat"])
     if case["seed"] % 2:
